@@ -1,5 +1,5 @@
 """property id -> rules, explanation of what is / is not decided"""
-from rules import r_coord, r_keyid, r_opcode, r_doaction, r_cancel, r_idle, r_loop, r_traverse, r_repeat, r_chv2, r_wait
+from rules import r_coord, r_keyid, r_opcode, r_doaction, r_cancel, r_idle, r_loop, r_traverse, r_repeat, r_chv2, r_wait, r_macro
 
 PROPS = {
     "C01": {
@@ -59,6 +59,16 @@ PROPS = {
                        "before handle_time_ticks, after handle_input_event.",
         "not_decided": "full two-run equivalence for all continuations; wall-clock to tick conversion arithmetic; the exemption "
                        "table's semantic reasons are reviewed, not machine-checked",
+    },
+    "C08": {
+        "rules": [r_macro.run_all, r_cancel.run],
+        "explanation": "Decides: (R-MACRO-BAL) the macro compiler parse_macro_item_impl emits, on every path to an Ok return, a "
+                       "Release event from the same source for every Press event it emits (single keys, output chords, held "
+                       "modifier groups); (R-CANCEL) each of the sites that clear the running macros also removes the macro-held "
+                       "fake keys; (R-SEQ-CUSTOM) a macro's custom/unicode item changes state only on a tick where its event can "
+                       "be reported.",
+        "not_decided": "inter-step delays, 'no two steps in one millisecond', repeat-while-held, eviction from the 4-slot ring "
+                       "(see C01/C02 R-EVICT) — run-time values",
     },
     "C09": {
         "rules": [r_traverse.run_chords, r_chv2.run_all],
